@@ -13,6 +13,7 @@ from vf.rigs.world import Killed, crash_at
 from vf.runner import Ob
 
 LEVEL = "other"
+TECHNIQUE = ('symx: symbolic crash index over the complete FakeOS / FakeS3 call trace of each real operation; recovery oracle per path; concrete replay')
 EXPLANATION = (
     "Bounded symbolic execution (symx/z3) of every operation type with a symbolic crash index over its complete "
     "trace of storage-level steps; z3 case-splits the index, every feasible crash point is explored (complete for "
